@@ -395,6 +395,16 @@ impl MainEvent {
     pub fn timestamp(&self) -> u32 {
         self.trigger_timestamp
     }
+    /// Verification hook: read-only view of the calibrated anode wire signals.
+    #[cfg(alpha_g_verif)]
+    pub fn verif_wire_signals(&self) -> &[Option<Vec<f64>>; TPC_ANODE_WIRES] {
+        &self.wire_signals
+    }
+    /// Verification hook: read-only view of the calibrated pad signals.
+    #[cfg(alpha_g_verif)]
+    pub fn verif_pad_signals(&self) -> &[[Option<Vec<f64>>; TPC_PAD_ROWS]; TPC_PAD_COLUMNS] {
+        &self.pad_signals
+    }
     /// Return all reconstructed avalanches in the event.
     pub fn avalanches(&self) -> Vec<Avalanche> {
         // We would only want to deconvolve pad columns that have wire signals.
